@@ -103,7 +103,7 @@ Exact(r) ==
       [] r.ev = "ConsumeEach" ->
             \A t \in SeqToSet(r.tried) \cap txt : (t \in SeqToSet(r.okset)) = Allowed(c, st, t)
       [] r.ev = "Acc" /\ r.ok = 1 -> (r.v = 1) = Nullable(st)
-      [] r.ev = "Consume" /\ ~Stopped(r.e) /\ r.t < s.n /\ (r.t \in txt) ->
+      [] r.ev = "Consume" /\ ~Stopped(r.e) /\ r.t < s.n /\ (r.t \in txt) /\ ~(r.ok = 0 /\ r.cls = "limit") ->
             /\ (r.ok = 1) = Allowed(c, st, r.t)
             /\ r.ok = 1 /\ r.t # s.eos =>
                  LET st2 == DS(st, TokBytes(c, r.t)) IN
